@@ -50,7 +50,7 @@ def gammas(w, dt):
         E = E + Kp * cE
         G1 = G1 + Kp * (cE * t / (k + 1))
         G2 = G2 + Kp * (cE * t * t / ((k + 1) * (k + 2)))
-        if k > 3 and max(abs(Kp[i, j]) for i in range(3) for j in range(3)) * cE < m.mpf(10) ** (-60):
+        if k > 3 and max(abs(Kp[i, j]) for i in range(3) for j in range(3)) * abs(cE) < m.mpf(10) ** (-60):  # abs: t may be negative
             break
     f = lambda M: np.array([[float(M[i, j]) for j in range(3)] for i in range(3)])
     return f(E), f(G1), f(G2)
@@ -343,6 +343,35 @@ def explore_pyapi(case):
                 if not (np.array_equal(numapi.ev(l.param).reshape(-1), lp) and np.array_equal(numapi.ev(r.param).reshape(-1), rp)):
                     res.fail(site=config, clause="python_api_reused_elements:arguments_not_mutated", cls="-",
                              detail=dict(l_before=lp, l_after=numapi.ev(l.param).reshape(-1), r_after=numapi.ev(r.param).reshape(-1)), sub="pyapi", case=case)
+    # an IMU stream integrated from ONE work vector that is refilled in place for every sample (buf[3:6] = a_k; buf[6:9] = w_k), all the
+    # per-sample algebra elements created first and used afterwards: every step must use the inputs of its own sample
+    for config, G in (("strapdown_quat", lib.lie.SE23Quat), ("exp_mixed_mrp", lib.lie.SE23Mrp)):
+        x0 = initial_states(config, seed)[1]
+        samples = [(A_MENU[2], W_MENU[2]), (A_MENU[1], W_MENU[3]), (A_MENU[0], W_MENU[2]), (A_MENU[2], W_MENU[0])]
+        g, dt = 9.8, 0.05
+        res.count("evaluations")
+        res.count("transitions", len(samples))
+        res.nontrivial.add(hash((config, "stream")))
+        buf = ca.SX(9, 1)
+        ls = []
+        for a, w in samples:
+            for k in range(3):
+                buf[3 + k] = float(a[k])
+                buf[6 + k] = float(w[k])
+            ls.append(lib.lie.se23.elem(buf))
+        r = lib.lie.se23.elem(ca.DM([0, 0, 0, 0, 0, -g, 0, 0, 0.0]))
+        Bm = ca.sparsify(ca.SX([[0, 1], [0, 0]]))
+        X = G.elem(ca.DM(x0))
+        p, v, R = split(config, x0)
+        try:
+            for k, ((a, w), l) in enumerate(zip(samples, ls)):
+                X = G.exp_mixed(X, l * dt, r * dt, Bm * dt)
+                p, v, R = ref_step(p, v, R, a, w, g, dt)
+                x1 = numapi.ev(X.param).reshape(-1)
+                if not judge(res, config, x1, p, v, R, 1.0 + (k + 1) * dt, "python_api_stream_from_one_work_vector", dict(x0=x0, sample=k, a=a, w=w, cls="sample%d" % k), case, steps=k + 1):
+                    break
+        except Exception as ex:
+            res.fail(site=config, clause="python_api_reused_elements:no_exception", cls=type(ex).__name__, detail=dict(error=str(ex)[:200]), sub="pyapi", case=case)
     res.samples.append(dict(pyapi=True))
     return res
 
@@ -361,7 +390,8 @@ class _SubOne:
     chunks = 1
 
     def cases(self, tier, seed):
-        return [dict(sub="onestep", config=c, tier=tier, seed=seed, dt=dt) for c in ("strapdown_quat", "exp_mixed_mrp") for dt in DT_MENU]
+        # the flow is defined for backward steps as well ("for any dt"): two negative steps in the one-step lattice
+        return [dict(sub="onestep", config=c, tier=tier, seed=seed, dt=dt) for c in ("strapdown_quat", "exp_mixed_mrp") for dt in DT_MENU + [-1e-3, -0.5]]
 
     def run(self, case):
         return explore_onestep(case)
